@@ -202,6 +202,9 @@ OBOk(S, tab, ob) ==
                                                                      /\ OBOk(S, tab, ob[2][j])
   ELSE FALSE
 
+\* group_by takes column names only (no "-")
+NoSign(ob) == Len(ob) = 0 \/ (ob[1] = "s" /\ ob[3] = "") \/ (ob[1] = "t" /\ \A j \in 1..Len(ob[2]) : ob[2][j][3] = "")
+
 LocalNames == {"x", "y", "e", "v", "k", "z"}
 Funcs == {"len", "sum", "list", "max", "min", "sorted", "str", "bool"}
 
@@ -236,7 +239,7 @@ Ty(S, h, sc, e) ==
                    /\ Ty(S, h, (e[3] :> t) @@ sc, e[4]) = "")
     [] k = "pn" ->
          IF /\ e[2] \in {"PREVIOUS", "NEXT", "RANK"} /\ Len(e[4]) > 0
-            /\ OBOk(S, h, e[3]) /\ OBOk(S, h, e[4])
+            /\ OBOk(S, h, e[3]) /\ NoSign(e[3]) /\ OBOk(S, h, e[4])
             /\ (e[2] = "RANK" => Len(e[5]) = 0)
          THEN (IF e[2] = "RANK" THEN "" ELSE ChainEnd(S, h, e[5])) ELSE "!"
     [] OTHER -> "!"
